@@ -39,6 +39,7 @@ theorem gap_sets_link_paths :
     "sets" ∈ (Gen.otherReferences.lookup "G").getD [] ∧ "paths" ∈ (Gen.dependentLines.lookup "G").getD [] ∧
     "paths" ∈ (Gen.dependentLines.lookup "L").getD [] ∧ "sets" ∈ (Gen.dependentLines.lookup "E").getD [] ∧
     "paths" ∈ (Gen.dependentLines.lookup "E").getD [] ∧ "sets" ∈ (Gen.dependentLines.lookup "U").getD [] ∧
+    "paths" ∈ (Gen.dependentLines.lookup "U").getD [] ∧
     "paths" ∈ (Gen.dependentLines.lookup "O").getD [] ∧ "sets" ∈ (Gen.dependentLines.lookup "O").getD [] := by decide
 
 end Gfa.Bridge.Connect
